@@ -36,7 +36,6 @@ TRUSTED_BASE = [
     "on generated coordinate sets / selections / weights, not proved)",
     "coordinates enter the model as np.round(x, 6)*1e6 integers computed by the harness with numpy "
     "(monitored: |round(x)-x| <= 0.5000001e-6, real sorted coords are exactly those rounded values)",
-    "`rawDistinct` (uniqueness of the unrounded coordinates) is computed by the harness, not by the model",
     "harness/props/C19.py (adapters, error mapping, canonicalisation), lean/Driver/{Wire,LayoutMain}.lean parser",
     "float dtype/-0.0 representation and sha256 are outside the model: covered only by the correspondence "
     "on ==/static_hash and by the monitor",
@@ -45,7 +44,8 @@ TRUSTED_BASE = [
 UNCOVERED = [
     "special_layouts (Square/Rectangular/Triangular lattice registers) are monitor-only: qubits must sit on traps",
     "float rounding np.round(x, 6) itself is an oracle (monitored, not modelled)",
-    "weight look-up exactly at the float boundary of np.isclose is skipped (counted as float_ambiguous)",
+    "weight look-up of a position exactly one micro-unit away from a trap (the float boundary of np.isclose) "
+    "is skipped (counted as float_ambiguous)",
 ]
 
 
@@ -230,14 +230,12 @@ def run_case(drv: Driver, case: dict) -> Result:
 
     # ---- layout construction -------------------------------------------
     real = real_call(lambda: RegisterLayout(coords))
-    model = ask(f"layout {wire_coords(cmu)} {int(distinct_raw)}")
+    model = ask(f"layout {wire_coords(cmu)}")
     dims_ok = rect and len(coords[0]) in (2, 3)
-    expected_ok = bool(dims_ok and distinct_raw)
-    if collapsed and dims_ok and real == ("err", "notUnique"):
-        # an implementation that tests uniqueness on the rounded coordinates: nothing left to check
-        res.branches["collapsed-rejected"] += 1
-        res.errs["notUnique"] += 1
-        return res
+    # traps are identified by their rounded coordinates: those must be pairwise different
+    expected_ok = bool(dims_ok and distinct_raw and not collapsed)
+    if collapsed:
+        res.branches["collapsed-rejected" if real[0] == "err" else "collapsed-accepted"] += 1
     if (real[0] == "ok") != expected_ok:
         fail("layout-build", f"RegisterLayout({coords}) -> {real[0]} {real[1] if real[0]=='err' else ''}")
     if not cmp_status("layout-build", real, model):
@@ -441,7 +439,8 @@ def run_case(drv: Driver, case: dict) -> Result:
         return sum(1 for u in sorted_mu if all(abs(a - b) <= 1 for a, b in zip(u, t))) > 1
 
     def rtol_cause(given_mu, p, other):
-        """'rtol' when a trap of the map that is not at `p` lies within np.isclose's tolerance of `p`"""
+        """'rtol' when a trap of the map that is not at `p` lies within the tolerance np.isclose has with its
+        default rtol=1e-5 (the repaired defect F19)"""
         near = [t for t in given_mu if t != p and all(
             100000 * abs(a - b) <= 100000 + abs(b) for a, b in zip(t, p))]
         return "rtol" if near else other
@@ -449,7 +448,7 @@ def run_case(drv: Driver, case: dict) -> Result:
     def check_weight_map(dm, clause, given_mu, given_w, positions, qids=None):
         """correspondence + monitor of sorted_weights / get_qubit_weight_map on `positions`"""
         pos_mu = mu_coords(positions)
-        m = ask(f"wmap {wire_coords(given_mu)} {wire_list(given_w, common.rat)} 1 {wire_coords(pos_mu)}")
+        m = ask(f"wmap {wire_coords(given_mu)} {wire_list(given_w, common.rat)} {wire_coords(pos_mu)}")
         if m[0] != "ok":
             res.diverge.append((clause, f"model rejects an accepted weight map: {m}"))
             return None
@@ -472,9 +471,8 @@ def run_case(drv: Driver, case: dict) -> Result:
         for i, p in enumerate(pos_mu):
             near = [j for j, t in enumerate(given_mu) if all(abs(a - b) <= 1 for a, b in zip(t, p))]
             exact = [j for j, t in enumerate(given_mu) if t == p]
-            # float boundary of isclose: |t-p|*1e5 == 1e5 + |p| up to rounding
-            amb = any(abs(100000 * abs(a - b) - (100000 + abs(b))) <= 1000 and a != b
-                      for t in given_mu for a, b in zip(t, p))
+            # float boundary of isclose(rtol=0, atol=1e-6): a trap exactly one micro-unit away
+            amb = len(near) > len(exact)
             if amb:
                 res.ambiguous += 1
                 continue
@@ -550,7 +548,7 @@ def run_case(drv: Driver, case: dict) -> Result:
     if wm is not None and rect:
         ws, positions = wm["weights"], wm["positions"]
         real = real_call(lambda: DetuningMap(coords, ws))
-        model = ask(f"wmap {wire_coords(cmu)} {wire_list(ws, common.rat)} {int(distinct_raw)} []")
+        model = ask(f"wmap {wire_coords(cmu)} {wire_list(ws, common.rat)} []")
         if cmp_status("weight-map-build", real, model):
             dm = real[1]
             got = check_weight_map(dm, "weight-lookup", cmu, [float(w) for w in ws], positions)
@@ -1021,7 +1019,7 @@ def lean_obligations():
     if not ok:
         raise InfraError("lake build failed:\n" + out[-3000:])
     thms = common.property_theorems(PROP)
-    bad = common.lean_forbidden_tokens()
+    bad = common.lean_forbidden_tokens([f"Properties.{PROP}"] if "PROP" in globals() else None)
     if bad:
         raise InfraError("forbidden tokens in Lean sources: " + "; ".join(bad[:5]))
     axioms = common.audit_axioms(f"Properties.{PROP}", thms)
